@@ -28,8 +28,26 @@
 (*             in pass 2 (its body shrinks in that pass): the error is     *)
 (*             written, and discounted again iff -Y  (JumpStep)            *)
 (*   pjmp      a short branch that is out of range for good                *)
+(*   bjmp      a short BACKWARD branch that is out of range for good: its  *)
+(*             target is defined in every pass, so the error is raised in  *)
+(*             every pass, pass 1 included, repass pending or not          *)
+(*   bpage     a jump whose (constant) target is on another page: error    *)
+(*             1910, the second number of the jump family, every pass      *)
+(*   shrink    a forward reference to a zero-page / direct cell with a     *)
+(*             label behind it: 3 bytes in pass 1, 2 bytes from pass 2 on, *)
+(*             so the label MOVES in pass 2 (LabelMoved, Repass) - a mover *)
+(*             that raises no diagnostic of its own                        *)
+(*   the four jump classes carry a wrapper t:  ""  bare statement,         *)
+(*             "exp"   EXPECT <its own number> / statement / ENDEXPECT,    *)
+(*             "expx"  EXPECT <the other jump number> / statement /        *)
+(*                     ENDEXPECT (the announcement does not match)         *)
+(*             - the dimension EXPECT block x jump-error family x -Y x     *)
+(*             pending repass x a label moving later in the pass.          *)
 (*   burstE n, burstW n, burstU n   REPT n of an err / warn / uwarn line   *)
 (*   expect, endexpect      EXPECT 1200 ... ENDEXPECT                      *)
+(*             expect with f = "warn": EXPECT 290, the number of the       *)
+(*             internal warning of class warn (met BEFORE -w and -Werror   *)
+(*             are looked at: Diag.tla ExpectedFirst)                      *)
 (*   flag f    an ON/OFF style instruction setting mode flag f, or the     *)
 (*             definition of macro / function / symbol f (twice: error)    *)
 (*   probe f   a line whose code depends on mode flag f                    *)
@@ -91,7 +109,9 @@ SummaryShown(o) == ~o.q
 \*           code then) - the only thing of an earlier pass this model remembers; in the code it is the symbol table
 \*  nowErr   the same for the current pass
 InitCore == [ifasm |-> TRUE, ifd |-> 0, rec |-> "none", svd |-> 0, std |-> 0, sed |-> 0, phd |-> 0,
-             flags |-> {}, code |-> <<>>, repass |-> FALSE, pos |-> 0, prevErr |-> {}, nowErr |-> {}]
+             flags |-> {}, code |-> <<>>, repass |-> FALSE, pos |-> 0, prevErr |-> {}, nowErr |-> {}, shift |-> FALSE]
+\*  shift    a statement above has another size than in the previous pass and no label has been defined since: the
+\*           next label definition is where SymbolAdder discovers the move (Discover)
 
 \* a stale JmpErrors counter travels in the carry set as a token (only if "jmperrors" \in Leaky)
 JmpTokens == {"jmperr1", "jmperr2", "jmperr3"}
@@ -120,6 +140,12 @@ Defs == {"macro", "func", "sym"}
 \* instruction everywhere else).
 CpuScoped == {"switchocc", "pageocc", "shiftocc", "onoff"}
 
+\* A label is defined here.  If the code above it has changed its size against the previous pass (c.shift) this is
+\* where SymbolAdder finds a changed value: LabelMoved (the remembered jump errors are forgotten / discounted), Repass.
+Discover(o, st, pass) ==
+  IF st.c.shift THEN [d |-> LabelMoved(o, st.d, st.c.repass, pass), c |-> [st.c EXCEPT !.repass = TRUE, !.shift = FALSE]]
+  ELSE st
+
 \* one source line in pass `pass`
 \* A short branch over a body, at source position c.pos (6502 `bne`, 68000 `beq.s` ...).
 \*   tjmp  TransientJumpErr: the body shrinks in pass 2 (operands defined further down become known), so the branch is
@@ -136,10 +162,44 @@ JumpStep(o, st, kind, pass) ==
      ELSE LET inrange == kind = "tjmp" /\ pass >= 3
               errs    == ~inrange /\ ~c.repass
               d1      == IF errs THEN WrJumpError(o, d, c.repass) ELSE d
-              moved   == (kind = "tjmp" /\ pass = 2) \/ (errs # (c.pos \in c.prevErr))
+              moved   == (kind = "tjmp" /\ pass = 2) \/ (errs # (c.pos \in c.prevErr)) \/ c.shift
               d2      == IF moved /\ ~d1.fatal THEN LabelMoved(o, d1, c.repass, pass) ELSE d1
               c1      == IF errs THEN [c EXCEPT !.nowErr = @ \cup {c.pos}] ELSE Emit(c, kind, FALSE)
-          IN [d |-> d2, c |-> [c1 EXCEPT !.repass = @ \/ (moved /\ ~d1.fatal)]]
+          IN [d |-> d2, c |-> [c1 EXCEPT !.repass = @ \/ (moved /\ ~d1.fatal), !.shift = FALSE]]
+
+\* bjmp / bpage: the error is raised in every pass (the operand is a backward label / a constant: never questionable);
+\* it is remembered in JmpErrors iff no repass is pending; the statement never emits code, so it moves nothing itself.
+JumpNumOf(k) == IF k = "bpage" THEN NumTargOnDiffPage ELSE NumJmpDistTooBig
+OtherJumpNum(num) == IF num = NumJmpDistTooBig THEN NumTargOnDiffPage ELSE NumJmpDistTooBig
+\* (the target label of bjmp and the filler between it and the branch stand in front of the EXPECT block: PreLabel)
+BackStep(o, st, num) == [st EXCEPT !.d = WrJumpErrorN(o, st.d, st.c.repass, num)]
+PreLabel(o, st, k, pass) == IF k = "bjmp" THEN Discover(o, st, pass) ELSE st
+
+\* shrink: pass 1 forward reference; pass 2 the statement is one byte shorter, the label behind it has another value
+\* than in pass 1: SymbolAdder's discovery (LabelMoved: the remembered jump errors are forgotten, with -Y discounted),
+\* Repass.  From pass 3 on nothing changes any more.
+ShrinkStep(o, st, pass) ==
+  LET c1 == Emit(st.c, "shrink", FALSE)
+  IN IF pass = 1 THEN [st EXCEPT !.c = [c1 EXCEPT !.repass = TRUE]]
+     ELSE IF pass = 2 THEN [d |-> LabelMoved(o, st.d, st.c.repass, pass), c |-> [c1 EXCEPT !.repass = TRUE, !.shift = FALSE]]
+     ELSE Discover(o, [st EXCEPT !.c = c1], pass)
+
+BareJump(o, st, k, pass) == IF k \in {"tjmp", "pjmp"} THEN JumpStep(o, st, k, pass) ELSE BackStep(o, st, JumpNumOf(k))
+
+\* a statement of the jump family under its wrapper: three source lines EXPECT n / statement / ENDEXPECT executed in
+\* order (a -maxerrors stop ends the sequence where it happens)
+JumpFamilyStep(o, st00, ln, pass) ==
+  LET st == PreLabel(o, st00, ln.k, pass) IN
+  IF ln.t = "" THEN BareJump(o, st, ln.k, pass)
+  ELSE LET num == IF ln.t = "exp" THEN JumpNumOf(ln.k) ELSE OtherJumpNum(JumpNumOf(ln.k))
+           s1  == [st EXCEPT !.d = CodeEXPECT(o, st.d, <<num>>)]
+           s2  == IF s1.d.fatal THEN s1 ELSE BareJump(o, s1, ln.k, pass)
+       IN IF s2.d.fatal THEN s2 ELSE [s2 EXCEPT !.d = CodeENDEXPECT(o, s2.d)]
+
+JumpKinds == {"tjmp", "pjmp", "bjmp", "bpage"}
+
+\* what an `expect` line announces
+ExpectNumOf(f) == IF f = "warn" THEN NumNullResMem ELSE NumUnknownInstr
 
 LineStep(o, st0, ln, pass) ==
   LET st == [st0 EXCEPT !.c.pos = @ + 1]
@@ -154,17 +214,19 @@ LineStep(o, st0, ln, pass) ==
             [] ln.k = "uwarn"     -> [st EXCEPT !.d = UserWARNING(o, d)]
             [] ln.k = "uerr"      -> [st EXCEPT !.d = UserERROR(o, d)]
             [] ln.k = "ufatal"    -> [st EXCEPT !.d = UserFATAL(o, d)]
-            [] ln.k = "fwd"       -> [st EXCEPT !.c = [Emit(c, "fwd", FALSE) EXCEPT !.repass = @ \/ pass = 1]]
-            [] ln.k \in {"tjmp", "pjmp"} -> JumpStep(o, st, ln.k, pass)
+            [] ln.k = "fwd"       -> Discover(o, [st EXCEPT !.c = [Emit(c, "fwd", FALSE) EXCEPT !.repass = @ \/ pass = 1]], pass)
+            [] ln.k \in JumpKinds -> JumpFamilyStep(o, st, ln, pass)
+            [] ln.k = "shrink"    -> ShrinkStep(o, st, pass)
             [] ln.k = "undef"     -> IF pass = 1 THEN [st EXCEPT !.c = [Emit(c, "undef", FALSE) EXCEPT !.repass = TRUE]]
-                                     ELSE [st EXCEPT !.d = WrXErrorPos(o, d, NumSymbolUndef)]
+                                     \* no code where the error is raised: what follows stands 3 bytes lower than in pass 1
+                                     ELSE [st EXCEPT !.d = WrXErrorPos(o, d, NumSymbolUndef), !.c.shift = (pass = 2)]
             [] ln.k = "burstE"    -> [st EXCEPT !.d = IF ln.n <= 3 THEN Repeat(o, d, NumUnknownInstr, ln.n)
                                                       ELSE RepeatClosed(o, d, NumUnknownInstr, ln.n)]
             [] ln.k = "burstW"    -> [st EXCEPT !.d = IF ln.n <= 3 THEN Repeat(o, d, NumNullResMem, ln.n)
                                                       ELSE RepeatClosed(o, d, NumNullResMem, ln.n)]
             [] ln.k = "burstU"    -> [st EXCEPT !.d = IF ln.n <= 3 THEN RepeatUserW(o, d, ln.n)
                                                       ELSE RepeatClosed([o EXCEPT !.suppw = FALSE], d, NumNullResMem, ln.n)]
-            [] ln.k = "expect"    -> [st EXCEPT !.d = CodeEXPECT(o, d, <<NumUnknownInstr>>)]
+            [] ln.k = "expect"    -> [st EXCEPT !.d = CodeEXPECT(o, d, <<ExpectNumOf(ln.f)>>)]
             [] ln.k = "endexpect" -> [st EXCEPT !.d = CodeENDEXPECT(o, d)]
             [] ln.k = "flag"      -> IF ln.f \in Defs /\ ln.f \in c.flags                \* defined twice
                                      THEN [st EXCEPT !.d = WrXErrorPos(o, d, IF ln.f = "macro" THEN NumDoubleMacro
@@ -186,7 +248,7 @@ LineStep(o, st0, ln, pass) ==
                    [] ln.t = "pha"  -> [st EXCEPT !.c.phd = @ + 1]
 
 \* a line the closed forms are allowed on (their precondition), used as a guard by the generators
-BurstOK(st, ln) == ln.k \in {"burstE", "burstW", "burstU"} => ~Has(st.d.exp, NumUnknownInstr)
+BurstOK(st, ln) == ln.k \in {"burstE", "burstW", "burstU"} => (~Has(st.d.exp, NumUnknownInstr) /\ ~Has(st.d.exp, NumNullResMem))
 
 \* end of ProcessFile + AssembleFile_ExitPass: one error per construct left open, in the order of the code
 Report(o, d, cond, num) == IF cond /\ ~d.fatal THEN WrXErrorPos(o, d, num) ELSE d
@@ -288,7 +350,7 @@ DeclWarn(o, ln) == CASE ln.k = "warn" -> IF o.werror \/ o.suppw THEN 0 ELSE 1
                      [] ln.k = "burstU" -> IF o.werror THEN 0 ELSE ln.n
                      [] OTHER -> 0
 IsFatalLine(ln) == ln.k \in {"fatalI", "ufatal"}
-Plain(lines) == \A i \in 1..Len(lines) : lines[i].k \notin {"expect", "endexpect", "open", "use", "undef", "tjmp", "pjmp"}
+Plain(lines) == \A i \in 1..Len(lines) : lines[i].k \notin {"expect", "endexpect", "open", "use", "undef", "shrink"} \cup JumpKinds
 RECURSIVE SumTo(_, _, _)
 SumTo(f, lines, n) == IF n = 0 THEN 0 ELSE f[n] + SumTo(f, lines, n - 1)
 \* index of the first fatal line, or Len+1
